@@ -35,3 +35,49 @@ Example C07_nonvacuous :
      EOut (obs "sys" [ASym "wr"; AInt 5])] = false.
 Proof. split; [exact LoopFd.ex_stale_partial|exact LoopFd.ex_fd_rejects]. Qed.
 Print Assumptions C07_nonvacuous.
+
+(* ---- the engine's own descriptors: listeners, epoll descriptors, eventfds (Model/Start.v).
+   For EVERY configuration (reuse-port or main-reactor mode, any number of loops and listeners) and EVERY
+   failure of epoll_create1 / eventfd / epoll_ctl ADD during the start (or none): when Run / Rotate returns,
+   every descriptor the start created has been closed, none twice, nothing else has been closed; a start
+   that fails has not started a goroutine (nobody is left polling a closed descriptor's number); and Run
+   reports the failure exactly when a call failed. *)
+From GV Require Model.Start Proofs.StartProofs.
+
+Theorem C07_start_no_leak : forall c, Start.leaked (fst (Start.run c)) = nil.
+Proof. exact StartProofs.run_no_leak. Qed.
+Print Assumptions C07_start_no_leak.
+
+Theorem C07_start_closes_once : forall c, List.NoDup (Start.cls (fst (Start.run c))).
+Proof. exact StartProofs.run_closes_once. Qed.
+Print Assumptions C07_start_closes_once.
+
+Theorem C07_start_closes_created : forall c id,
+  List.In id (Start.cls (fst (Start.run c))) <-> List.In id (List.map fst (Start.opn (fst (Start.run c)))).
+Proof. exact StartProofs.run_closed_iff_created. Qed.
+Print Assumptions C07_start_closes_created.
+
+Theorem C07_failed_start_no_goroutine : forall c s, Start.after_start c = (s, false) -> Start.gos s = 0%nat.
+Proof. exact StartProofs.failed_start_no_goroutine. Qed.
+Print Assumptions C07_failed_start_no_goroutine.
+
+Theorem C07_start_outcome : forall c,
+  (snd (Start.run c) = Start.Failed <-> snd (Start.after_start c) = false) /\
+  (Start.c_fault c = None -> snd (Start.run c) = Start.Started) /\
+  (snd (Start.run c) = Start.Started ->
+   Start.gos (fst (Start.run c)) = (if Start.c_reuseport c then Start.c_nloops c else S (Start.c_nloops c))).
+Proof.
+  intro c. split; [exact (StartProofs.outcome_spec c)|].
+  split; [exact (StartProofs.no_fault_starts c)|exact (StartProofs.started_goroutines c)].
+Qed.
+Print Assumptions C07_start_outcome.
+
+(* non-vacuity: a reuse-port start of 3 loops with 2 listeners whose 4th epoll_ctl ADD fails *)
+Example C07_start_nonvacuous :
+  let c := Start.mkCfg true 3 2 (Some (Start.mkFault Start.SAdd 3)) in
+  snd (Start.run c) = Start.Failed /\
+  Start.count_kind Start.KSock (fst (Start.run c)) = 4%nat /\
+  Start.count_kind Start.KEpoll (fst (Start.run c)) = 2%nat /\
+  List.length (Start.cls (fst (Start.run c))) = 8%nat /\
+  Start.leaked (fst (Start.after_start c)) <> nil.
+Proof. vm_compute. repeat split; discriminate. Qed.
